@@ -311,3 +311,8 @@ def check(ctx):
         # no site-count floor: nth / nth_back are optional overrides; the drop_in_place matcher is witnessed on this run by C05.R (one per mandatory Drop impl)
         ctx.extra.setdefault("C05.X sites", {})[cfg] = m
         check_by_value(ctx, cfg)
+        # a foreign callable that is handed an element by value may drop it, and that destructor may panic: the unwind edge of every such call is a
+        # point at which the owners' claimed ranges must already exclude what has been moved out (the clause "an intermediate value of any operation
+        # is being torn down"); this is C04's per-call-site state rule, judged here under C05's name (S151)
+        from . import c04
+        c04.check_closures(ctx, cfg, rule_p="C05.P", rule_o="C05.O")
